@@ -17,6 +17,7 @@ xp_shared *XS;
 xp_ctx XC;
 static xp_entry *TAB;
 void (*xp_describe_job)(int job, char *buf, size_t buflen);
+const char *xp_part = "main";      /* which harness of a multi-part check wrote a replay file */
 
 double xp_now(void)
 {
@@ -153,14 +154,14 @@ void xp_violation(const char *sig, const char *fmt, ...)
 	v->count = 1;
 	mkdir("evidence", 0755);
 	mkdir("evidence/replays", 0755);
-	snprintf(v->replay, sizeof v->replay, "evidence/replays/%s-%s-%d.json", XC.prop, XC.tier, idx);
+	snprintf(v->replay, sizeof v->replay, "evidence/replays/%s-%s-%s-%d.json", XC.prop, XC.tier, xp_part, idx);
 	XS->nviol++;
 	unlock();
 	FILE *f = fopen(v->replay, "w");
 	if (f) {
 		char jd[300] = "";
 		if (xp_describe_job) xp_describe_job(XC.job, jd, sizeof jd);
-		fprintf(f, "{\"property\":\"%s\",\"tier\":\"%s\",\"job\":%d,\"job_desc\":\"", XC.prop, XC.tier, XC.job);
+		fprintf(f, "{\"property\":\"%s\",\"tier\":\"%s\",\"part\":\"%s\",\"job\":%d,\"job_desc\":\"", XC.prop, XC.tier, xp_part, XC.job);
 		json_escape(f, jd);
 		fprintf(f, "\",\"budget\":%d,\"path\":[", XC.budget);
 		for (int i = 0; i < XC.npath; i++)
